@@ -209,6 +209,20 @@ class Runner:
             if cands:
                 cands[int(op[1]) % len(cands)].crash()
                 self.faults_applied += 1
+        elif kind == 'crash_master':
+            # crash the instance that most live instances hold as Master (only if it has company)
+            votes = {}
+            for x in w.instances:
+                if x.alive and x.supvisors is not None and x.supvisors.state_modes.master_identifier:
+                    votes[x.supvisors.state_modes.master_identifier] = votes.get(x.supvisors.state_modes.master_identifier, 0) + 1
+            if votes and sum(1 for x in w.instances if x.alive) > 1:
+                master = w.by_identifier(sorted(votes, key=lambda k: (-votes[k], k))[0])
+                if master is not None and master.alive:
+                    master.crash()
+                    self.faults_applied += 1
+                    down = int(op[1])
+                    if down > 0:
+                        self.pending_boot[master.idx] = w.now + down
         elif kind == 'boot':
             inst = self.inst(op[1])
             if not inst.alive and inst.restart_at is None:
@@ -668,6 +682,8 @@ def op_st(draw, config, kinds, specs):
         return [kind, i]
     if kind == 'restart':
         return [kind, i, draw(st.sampled_from([0, 0, 1, 3, 8, 20]))]
+    if kind == 'crash_master':
+        return [kind, draw(st.sampled_from([0, 0, 10, 30]))]
     if kind == 'crash_target':
         return [kind, draw(st.integers(0, 7)), draw(st.sampled_from([0, 0, 1]))]
     if kind in ('cut', 'heal', 'mute'):
@@ -807,6 +823,9 @@ def param_st(draw, config, kind, specs):
         # invalid *values* of the documented type (the API is typed: wrong XML-RPC types are out of scope)
         if kind in ('strategy', 'conciliation'):
             return draw(st.one_of(st.sampled_from(WEIRD_STRINGS + ['config', 'USER ', 'LESS']), st.integers(-3, 12)))
+        if kind == 'namespec':
+            # known application with an unknown process, unknown application with a known process
+            return draw(st.sampled_from(WEIRD_STRINGS + [a + ':nope' for a in apps] + ['nope:' + p for p in programs[:2]]))
         return draw(st.sampled_from(WEIRD_STRINGS))
     if kind == 'ident':
         i = draw(st.integers(0, n - 1))
